@@ -308,3 +308,45 @@ def repo_python_setup():
 
 def log(*a):
     print(*a, flush=True)
+
+
+def read_sim_traces(directory, prefix="tr"):
+    """parse the behaviour files written by `tlc -simulate file=<dir>/<prefix>,num=N`;
+    yields lists of (action, state dict)"""
+    hdr = re.compile(r"^\\\* <(\w+) line")
+    for fn in sorted(os.listdir(directory)):
+        if not fn.startswith(prefix + "_"):
+            continue
+        beh, action, buf = [], None, []
+        with open(os.path.join(directory, fn)) as f:
+            for line in f:
+                m = hdr.match(line)
+                if m:
+                    if buf:
+                        beh.append((action_prev, tlaval.parse_state("".join(buf))))
+                        buf = []
+                    action = m.group(1)
+                    continue
+                if line.startswith("STATE_"):
+                    action_prev = action
+                    continue
+                if line.startswith("/\\") or (buf and line.strip() and not line.startswith("====") and not line.startswith("----")):
+                    buf.append(line)
+                elif not line.strip() and buf:
+                    beh.append((action_prev, tlaval.parse_state("".join(buf))))
+                    buf = []
+        if buf:
+            beh.append((action_prev, tlaval.parse_state("".join(buf))))
+        yield beh
+
+
+def simulate(workdir, module, cfg, num, depth, seed, out_sub="sim", timeout=1800, env=None):
+    """run tlc -simulate writing num behaviours of at most depth states; returns (TLCResult, list of behaviours)"""
+    d = os.path.join(workdir, out_sub)
+    shutil.rmtree(d, ignore_errors=True)
+    os.makedirs(d)
+    r = run_tlc(workdir, module, cfg, workers=1, simulate="file=%s/tr,num=%d" % (d, num), depth=depth, seed=seed,
+                timeout=timeout, env=env)
+    behs = list(read_sim_traces(d))
+    shutil.rmtree(d, ignore_errors=True)
+    return r, behs
